@@ -75,6 +75,14 @@ def oracle(case, stats):
         return
     s = mf.atoms_from(case["spos"], case["sels"], case["cell"])
     p = mf.atoms_from(case["ppos"], case["pels"])
+    if case.get("prime") is not None:
+        # an earlier search, in the same process, of the same crystal described in another frame (whole crystal turned by
+        # an axis-aligned rotation: same cell lengths and angles, another cell matrix) - nothing of it may leak into the
+        # search that is checked
+        R = geom.axis_rotations()[case["prime"]]
+        s0 = mf.atoms_from((np.array(case["spos"]) @ R.T).tolist(), case["sels"], (np.array(case["cell"]) @ R.T).tolist())
+        mf.find(s0, p, atol, hints, seeds, positions=True, what="priming-search")
+        stats.count("primed-by-rotated-crystal")
     idx, pos, rots = mf.find(s, p, atol, hints, seeds, positions=True)
     idx2 = mf.find(s, p, atol, hints, seeds, positions=False)
     if [tuple(int(x) for x in m) for m in idx] != [tuple(int(x) for x in m) for m in idx2]:
@@ -103,6 +111,14 @@ def classify_case(case, nmatches, stats, nt=None):
         nt = nmatches >= 1 and (len(case["ppos"]) >= 3 or any(c["crossings"] > 0 for c in copies) or meta.get("decoys"))
     if nt:
         stats.mark_nontrivial(case)
+
+
+@st.composite
+def primed_case(draw):
+    """a planted case, one time in four preceded by a search of the same crystal in a turned frame"""
+    case = draw(gen_geom.planted())
+    case["prime"] = draw(st.one_of(st.none(), st.none(), st.none(), st.sampled_from([1, 2, 3, 5, 8, 13, 17, 22])))
+    return case
 
 
 @st.composite
@@ -169,6 +185,6 @@ def edit_oracle(case, stats, completeness=False):
 KNOWN_SIGS = {}
 
 PARTS = [
-    HypPart("planted", lambda tier: gen_geom.planted(), oracle, {"quick": 8000, "thorough": 80000}),
+    HypPart("planted", lambda tier: primed_case(), oracle, {"quick": 8000, "thorough": 80000}),
     HypPart("edit-then-search", lambda tier: edit_case(), edit_oracle, {"quick": 1500, "thorough": 15000}),
 ]
